@@ -38,6 +38,10 @@ RULES = [
     (r"frontend::lexer::Lexer::<'a>::scan_delimited::\{closure#0\}::assert::overflow_add\(arg2\.0,1\)#0", OFFS, None),
     (r"frontend::lexer::Lexer::<'a>::match_loop::assert::overflow_add\(self\.line,phi\)#0",
      "self.line += newlines: bounded by the number of '\\n' in the text; " + A_4GIB, None),
+    (r"frontend::lexer::Lexer::<'a>::maybe_followed_by_apostrophe_suffix::assert::overflow_add\(self\.line,result\.newlines\)#0",
+     "line + newline count of the token just scanned: bounded by the number of '\\n' in the text; " + A_4GIB, None),
+    (r"frontend::lexer::Lexer::<'a>::scan_word::\{closure#2\}::assert::overflow_sub\(arg1\.2,arg1\.1\)#0",
+     "end - start where end = find_next_word_end(), which searches from the iterator position already past the character at `start`: end > start", None),
     (r"frontend::lexer::Lexer::<'a>::current_loc::assert::overflow_sub\(current_idx\(\),self\.line_start\)#0",
      "line_start is the offset just after a newline that was already consumed, current_idx() is the offset of the next unread character or staged token: line_start <= current_idx()", None),
     (r"frontend::lexer::Lexer::<'a>::current_idx::\{closure#0\}::extern::unwrap#0",
